@@ -67,18 +67,33 @@ class PyList:
         return "[" + ", ".join(map(repr, self.items)) + "]"
 
 
+_ident_counter = itertools.count(1)
+
+
 class PyObj:
-    def __init__(self, cls: str, fields: dict):
+    """record with identity.  `ident` (a z3 Int) is what Python's `is` compares: objects built by the code or handed in as separate
+    arguments get distinct positive constants (allocated lazily); an object the executor only knows abstractly (a havoced loop
+    variable, an element of a sequence argument) carries a symbolic one."""
+    def __init__(self, cls: str, fields: dict, ident=None):
         self.cls = cls
         self.fields = dict(fields)
+        self.ident = ident
 
     def __repr__(self):
         return f"<{self.cls}>"
 
 
+class PyUnion:
+    """a value of one of several shapes, told apart by `kind` (index into alts); consumers fork on it"""
+    def __init__(self, kind, alts):
+        self.kind = kind
+        self.alts = list(alts)
+
+
 class PyComp:
-    """the list built by `[f(x) for x in seq]` when f(x) is a Python-side object: length len(seq); the element at index k is the
-    object `elt` (built for the arbitrary index `j`) with j replaced by k.  Immutable (any mutation is unsupported)."""
+    """a list of unknown length given element-wise: the element at index k is the template `elt` (stated for the arbitrary index `j`)
+    with j replaced by k.  Built by `[f(x) for x in seq]` when f(x) is a Python-side object, and for sequence arguments whose
+    elements are objects (fields and identity are functions of the index).  Immutable (any mutation is unsupported)."""
     def __init__(self, length, j, elt):
         self.length = length
         self.j = j
@@ -87,9 +102,14 @@ class PyComp:
     def at(self, k):
         def sub(v):
             if isinstance(v, PyObj):
-                return PyObj(v.cls, {f: sub(x) for f, x in v.fields.items()})
+                idt = ident_of(v)
+                return PyObj(v.cls, {f: sub(x) for f, x in v.fields.items()}, ident=z3.substitute(idt, (self.j, k)))
             if isinstance(v, (PyList, PyTuple)):
                 return type(v)([sub(x) for x in v.items])
+            if isinstance(v, PyUnion):
+                return PyUnion(sub(v.kind), [sub(x) for x in v.alts])
+            if isinstance(v, PyLit):
+                return PyLit(sub(v.isbytes), sub(v.val))
             if isinstance(v, z3.ExprRef):
                 return z3.substitute(v, (self.j, k))
             return v
@@ -261,9 +281,25 @@ def tok_fields(t):
             "end": PyTuple([Tok.el(t), Tok.ec(t)]), "line": Tok.line(t)}
 
 
-def same_obj(a, b) -> bool:
-    """Python `is` on modelled objects: copies of the heap made by the executor keep the identity of what they copy"""
-    return getattr(a, "origin", a) is getattr(b, "origin", b)
+def ident_of(o):
+    if o.ident is None:
+        o.ident = z3.IntVal(next(_ident_counter))
+    return o.ident
+
+
+def same_obj_z3(a, b):
+    """Python `is` on two modelled objects, as a z3 Bool (copies of the heap made by the executor keep the identity of what they copy)"""
+    if a is b:
+        return z3.BoolVal(True)
+    return z3.simplify(ident_of(a) == ident_of(b))
+
+
+def same_obj(a, b):
+    """True / False when identity is decided, None when it depends on symbolic identities"""
+    if not (isinstance(a, PyObj) and isinstance(b, PyObj)):
+        return a is b
+    r = same_obj_z3(a, b)
+    return True if z3.is_true(r) else (False if z3.is_false(r) else None)
 
 
 def clone(v, memo):
@@ -272,8 +308,7 @@ def clone(v, memo):
         if id(v) in memo:
             return memo[id(v)]
     if isinstance(v, PyObj):
-        n = PyObj(v.cls, {})
-        n.origin = getattr(v, "origin", v)        # object identity survives copying the heap (path forks, the old() snapshot)
+        n = PyObj(v.cls, {}, ident=ident_of(v))        # object identity survives copying the heap (path forks, the old() snapshot)
         memo[id(v)] = n
         n.fields = {k: clone(x, memo) for k, x in v.fields.items()}
         return n
